@@ -193,7 +193,7 @@ def expected (cfg : Config) (rs : List Rec) : List Exp := (run cfg rs).2
 /-- the time of a record, for the "time-ordered" precondition -/
 def recTime : Rec → Nat
   | .sample _ _ t _ _ _ _ | .fork _ _ _ _ t | .exit _ _ t | .comm _ _ _ _ t | .mmap2 _ _ _ _ _ _ _ t
-  | .switchIn _ _ t | .switchOut _ _ t | .sched _ _ t _ _ _ => t
+  | .switchIn _ _ t | .switchOut _ _ t | .sched _ _ t _ _ _ | .otherEvent _ _ t _ _ _ => t
 
 def timeOrdered : List Rec → Bool
   | a :: b :: rest => decide (recTime a ≤ recTime b) && timeOrdered (b :: rest)
@@ -361,6 +361,9 @@ def step (s : S) : Rec → S
   | .switchIn pid tid _ => if tid = 0 then s else ensureThread s pid tid
   | .switchOut pid tid _ => if tid = 0 then s else ensureThread s pid tid
   | .sched pid tid _ _ _ _ => ensureThread s pid tid
+  -- a sample of another event mentions a thread: it exists (same on-demand rule; tid 0 is not special, and the
+  -- current sample time is that of the main event's samples only)
+  | .otherEvent pid tid _ _ _ _ => ensureThread s pid tid
 
 def run (ref : Nat) (rs : List Rec) : S := rs.foldl step { ref, cur := ref }
 
@@ -677,11 +680,13 @@ def noSpecial (rs : List Rec) : Bool :=
     | .mmap2 _ _ _ _ _ true path _ => !specialPath path
     | _ => true)
 
-/-- the time of a record that enters a per-process queue or buffer: executable MMAP2 records (mapping queue) and
-SAMPLE records of a real thread (sample buffer) -/
+/-- the time of a record that enters a per-process queue or buffer: executable MMAP2 records (mapping queue),
+SAMPLE records of a real thread (sample buffer) and samples of another event (their marker item sits in the
+same buffer and advances the same queue at the flush) -/
 def queuedTime : Rec → Option Nat
   | .mmap2 _ _ _ _ _ true _ t => some t
   | .sample _ tid t _ _ _ _ => if tid = 0 then none else some t
+  | .otherEvent _ _ t _ _ _ => some t
   | _ => none
 
 /-- from the running maximum `T` on, the queued records are delivered in time order -/
@@ -696,6 +701,38 @@ def orderedFrom : Nat → List Rec → Bool
 finding C02-backdated-record: the `layout` families of the generator, judged through `ExpSample.legacyQ`). Records
 of other kinds (COMM / FORK / EXIT, e.g. the synthesized time-0 head) may carry any timestamp. -/
 def queuedOrdered (rs : List Rec) : Bool := orderedFrom 0 rs
+
+/-- The marker stacks the statement expects: one per sample of another event (tid 0 included, repeats
+included: a marker is not a sample, nothing is deduplicated), attributed like a sample of that process at that
+time — mappings announced at or before the timestamp, regular before perf map, JS label frames. `frames` is the
+stack that would reach the profile without the limiter; C14 judges `elisionOk frames (output stack)`. -/
+def expectedMarkers (cfg : Config) (rs : List Rec) : List ExpSample :=
+  let rec go (st : List (Nat × Announced)) : List Rec → List ExpSample
+    | [] => []
+    | r :: rest =>
+      let st' := annStepX false cfg st r
+      match r with
+      | .otherEvent pid tid t km ip chain =>
+        let ann := (alGet st pid).getD [] ++ laterAnn false cfg pid (some t) rest
+        let stack := (sampleStack cfg km ip chain).reverse
+        let pm := pmCands cfg pid
+        let fr := expandJs (stack.map (expectInfo ann t pm))
+        { pid, tid, t, frames := fr, legacySp := fr, legacyQ := fr,
+          overflow := stack.any (expectOverflows ann t pm), nrec := stack.length } :: go st' rest
+      | _ => go st' rest
+  go [] rs
+
+/-- the marker an other-event record stands for: (pid, tid, converted time) -/
+def oevOf (ref : Nat) : Rec → List (Nat × Nat × Nat)
+  | .otherEvent pid tid t _ _ _ => [(pid, tid, t - ref)]
+  | _ => []
+
+/-- the other-event samples of a history, in record order: (pid, tid, converted time) -/
+def oevs (ref : Nat) (rs : List Rec) : List (Nat × Nat × Nat) := rs.flatMap (oevOf ref)
+
+/-- does the history contain a sample of another event? -/
+def hasOev (rs : List Rec) : Bool :=
+  rs.any (fun r => match r with | .otherEvent .. => true | _ => false)
 
 /-- expected root-first frames of every accepted sample, in record order: (pid, tid, t, frames) -/
 def expectedStacks (cfg : Config) (rs : List Rec) : List (Nat × Nat × Nat × List Frame) :=
